@@ -23,14 +23,14 @@ RULE = (
     "with another name in play, or with an internal temporary"
 )
 SPACE = {
-    "quick": "25 roles x 51 pool names (every single assignment) + 46 related role pairs x 72 ordered pairs of 9 substring/prefix/case-related names; 7 battery sections, only the sections that use a role are re-run",
+    "quick": "25 roles x 57 pool names (every single assignment) + 46 related role pairs x 72 ordered pairs of 9 substring/prefix/case-related names; 7 battery sections, only the sections that use a role are re-run",
     "thorough": "all role pairs within a section x the 42 ordered name pairs",
 }
 BOUNDS = {"quick": {}, "thorough": {}}
 ASSUMPTIONS = [
     "the five position words themselves are excluded as names (as the property says)",
     "accept/reject is compared as returned-vs-raised; exception types and messages may mention names",
-    "a dimension called 'drop' is not exercised on the face-connected path: xarray's own DataArray.squeeze() fails for it",
+    "dimensions called 'drop', 'indexers' or 'missing_dims' are not exercised on the face-connected path: xarray's own DataArray.squeeze() fails for them",
 ]
 
 POOL = ["c", "e", "n", "t", "r", "l", "f", "i", "o", "u", "x", "g", "T", "xleft", "center1", "inner_x", "outerspace", "cent", "xx", "xc2",
@@ -38,10 +38,13 @@ POOL = ["c", "e", "n", "t", "r", "l", "f", "i", "o", "u", "x", "g", "T", "xleft"
         # spelled like a parameter of the xarray / numpy / dask functions the library calls, or like one of its own keyword arguments
         "mode", "constant_values", "pad_width", "dim", "axis", "keep_attrs", "drop", "name", "dims", "kwargs", "boundary", "to", "depth", "func",
         # words of the metadata conventions the parsers read
-        "padding", "high", "low", "both", "none", "node", "face"]
-# DataArray.squeeze() of the pinned xarray fails for a dimension called "drop" (its own keyword); the face-connected
+        "padding", "high", "low", "both", "none", "node", "face",
+        # parameter names of DataArray.rename / isel / transpose / pad
+        "new_name_or_name_dict", "names", "indexers", "missing_dims", "transpose_coords", "end_values"]
+# DataArray.squeeze() of the pinned xarray fails for a dimension called "drop", "indexers" or "missing_dims" (keywords of the
+# isel it calls); the face-connected
 # padding path relies on it, so that one (name, section) combination is outside what xgcm can be held to
-XARRAY_CANNOT = {("drop", "faces")}
+XARRAY_CANNOT = {("drop", "faces"), ("indexers", "faces"), ("missing_dims", "faces")}
 # substring / prefix / case relations, and a name next to the same name with the affixes the library uses for temporaries
 PAIRPOOL = ["x", "xx", "xc", "xc2", "XC", "Xc", "cx", "_x", "xdummy"]
 
@@ -51,7 +54,7 @@ CANON = dict(
     td_name="dens", target_dim="lev", sg_xcell="xi_rho", sg_xnode="xi_psi", sg_ycell="eta_rho", sg_ynode="eta_psi", dim_face="face",
 )
 ROLE_SECTIONS = dict(
-    ax_X=("ops", "metrics", "ufunc", "comodo", "faces"), ax_Y=("ops", "metrics", "ufunc", "comodo", "faces"), ax_Z=("transform",),
+    ax_X=("ops", "metrics", "metrics3", "ufunc", "comodo", "faces"), ax_Y=("ops", "metrics", "metrics3", "ufunc", "comodo", "faces"), ax_Z=("transform", "metrics3"),
     dim_xc=("ops", "metrics", "ufunc", "comodo", "faces"), dim_xg=("ops", "metrics", "ufunc", "comodo", "faces"), dim_xo=("ops",),
     dim_yc=("ops", "metrics", "ufunc", "comodo", "faces"), dim_yg=("ops", "metrics", "ufunc", "faces"),
     dim_zc=("transform",), dim_zo=("transform",), dim_time=("ops", "metrics", "ufunc", "transform", "faces"),
@@ -59,7 +62,7 @@ ROLE_SECTIONS = dict(
     dummy_p=("ufunc",), dummy_q=("ufunc",), td_name=("transform",), target_dim=("transform",),
     sg_xcell=("sgrid",), sg_xnode=("sgrid",), sg_ycell=("sgrid",), sg_ynode=("sgrid",), dim_face=("faces",),
 )
-SECTIONS = ("ops", "metrics", "ufunc", "transform", "comodo", "sgrid", "faces")
+SECTIONS = ("ops", "metrics", "metrics3", "ufunc", "transform", "comodo", "sgrid", "faces")
 
 
 def names_for(assign):
@@ -186,6 +189,44 @@ def sec_metrics(nm):
         ("get_metric", lambda: g.get_metric(temp, (X, Y))), ("get_metric-str", lambda: g.get_metric(temp, X)),
         ("set_metrics", lambda: (g.set_metrics(X, N["var_dxc"], overwrite=True), g.get_metric(temp, [X]))[1]),
         ("interp_like", lambda: g.interp_like(ds[N["var_dxg"]], temp)),
+    ]
+    for lab, fn in calls:
+        r, e = outcome(N, fn)
+        out.append((lab, r, e))
+    return out
+
+
+def sec_metrics3(nm):
+    """three axes; a metric for the pair (X, Y) registered before the single-axis ones: which registry entry answers a
+    request is decided by the *set* of axis names, whatever the names are (e.g. a third axis called like X and Y joined)"""
+    from xgcm import Grid
+
+    N = nm
+    out = []
+    nx, ny, nz = 3, 2, 2
+    ds = xr.Dataset(coords={N["dim_xc"]: (N["dim_xc"], np.arange(nx) + 0.5), N["dim_xg"]: (N["dim_xg"], np.arange(nx) * 1.0),
+                            N["dim_yc"]: (N["dim_yc"], np.arange(ny) + 0.5), N["dim_yg"]: (N["dim_yg"], np.arange(ny) * 1.0),
+                            N["dim_zc"]: (N["dim_zc"], np.arange(nz) + 0.5), N["dim_zo"]: (N["dim_zo"], np.arange(nz + 1) * 1.0)})
+    ds["cellarea"] = ((N["dim_yc"], N["dim_xc"]), np.array([[3.0, 5.0, 7.0], [11.0, 13.0, 17.0]]))
+    ds[N["var_dxc"]] = ((N["dim_xc"],), np.array([1.0, 2.0, 4.0]))
+    ds[N["var_dyc"]] = ((N["dim_yc"],), np.array([2.0, 8.0]))
+    ds["thickness"] = ((N["dim_zc"],), np.array([19.0, 23.0]))
+    temp = xr.DataArray(((np.arange(nz * ny * nx) * 7) % 11).astype(float).reshape(nz, ny, nx), dims=[N["dim_zc"], N["dim_yc"], N["dim_xc"]], name=N["var_temp"])
+    X, Y, Z = N["ax_X"], N["ax_Y"], N["ax_Z"]
+    coords = {X: {"center": N["dim_xc"], "left": N["dim_xg"]}, Y: {"center": N["dim_yc"], "left": N["dim_yg"]}, Z: {"center": N["dim_zc"], "outer": N["dim_zo"]}}
+    try:
+        with warnings.catch_warnings():
+            warnings.simplefilter("ignore")
+            g = Grid(ds, coords=coords, periodic=False, boundary="extend", autoparse_metadata=False,
+                     metrics={(X, Y): ["cellarea"], (X,): [N["var_dxc"]], (Y,): [N["var_dyc"]], (Z,): ["thickness"]})
+        out.append(("construct", ("ok",), None))
+    except Exception as e:
+        return [("construct", ("raise",), e)]
+    calls = [
+        ("get-z", lambda: g.get_metric(temp, Z)), ("get-x", lambda: g.get_metric(temp, (X,))), ("get-xy", lambda: g.get_metric(temp, (Y, X))),
+        ("get-xyz", lambda: g.get_metric(temp, (X, Y, Z))), ("get-yz", lambda: g.get_metric(temp, [Y, Z])),
+        ("integrate-z", lambda: g.integrate(temp, Z)), ("integrate-xy", lambda: g.integrate(temp, [X, Y])), ("average-zx", lambda: g.average(temp, [Z, X])),
+        ("cumint-z", lambda: g.cumint(temp, Z, to="outer", boundary="fill")), ("mw-z", lambda: g.interp(temp, Z, metric_weighted=Z)),
     ]
     for lab, fn in calls:
         r, e = outcome(N, fn)
@@ -376,7 +417,7 @@ def sec_faces(nm):
     return out
 
 
-SEC_FN = dict(ops=sec_ops, metrics=sec_metrics, ufunc=sec_ufunc, transform=sec_transform, comodo=sec_comodo, sgrid=sec_sgrid, faces=sec_faces)
+SEC_FN = dict(ops=sec_ops, metrics=sec_metrics, metrics3=sec_metrics3, ufunc=sec_ufunc, transform=sec_transform, comodo=sec_comodo, sgrid=sec_sgrid, faces=sec_faces)
 _CANON = {}
 
 
@@ -474,6 +515,9 @@ def assignments(tier):
     # dummy names spelled like the real axes (same and crosswise) and like dimensions
     for n1, n2 in (("X", "Y"), ("Y", "X"), ("X", "q"), ("p", "X"), ("Y", "q"), ("xc", "yc"), ("Z", "X")):
         out.append({"dummy_p": n1, "dummy_q": n2})
+    # three axis names of which one is the other two joined (in either order), or contains them
+    for n1, n2, n3 in (("a", "b", "ab"), ("b", "a", "ab"), ("lat", "lon", "latlon"), ("x", "y", "yx"), ("ab", "a", "b"), ("k", "kk", "kkk"), ("X", "XY", "Y")):
+        out.append({"ax_X": n1, "ax_Y": n2, "ax_Z": n3})
     return out
 
 
